@@ -169,6 +169,8 @@ class ID3(ID3Tags, mutagen.Metadata):
             size = self.size - 10
             if self.f_extended:
                 size -= 4 + len(self._header._extdata)
+            if size < 0:
+                raise error("Extended header exceeds the tag size")
             data = read_full(fileobj, size)
             remaining_data = self._read(self._header, data)
             self._padding = len(remaining_data)
